@@ -37,7 +37,8 @@ Fixpoint alias_get (k : str) (l : list (str * list str)) : option (list str) :=
   match l with [] => None | (a, v) :: r => if seqb a k then Some v else alias_get k r end.
 Definition is_alias (k : str) : bool := match alias_get k aliases with Some _ => true | None => false end.
 
-(* None = IndexError (single-colon header whose last token is jr) *)
+(* None = IndexError in tokens[jr_idx + 1]; the guard looks for jr in tokens[:-1], so that branch is
+   proved unreachable (Proofs/Params.v: process_header_total) *)
 Definition process_header (use_double_colon : bool) (header : str) : option (list str) :=
   if mem header columns && negb (is_alias header) then Some [header]
   else let norm := to_snake_case header in
@@ -46,7 +47,7 @@ Definition process_header (use_double_colon : bool) (header : str) : option (lis
     let tokens0 :=
       if use_double_colon || contains COLON2 header then Some (map py_strip (py_split COLON2 header))
       else let toks := map py_strip (py_split [58%N] header) in
-           match index_of s_jr toks with
+           match index_of s_jr (removelast toks) with
            | None => Some toks
            | Some i => match nth_error toks (S i) with
                        | None => None
